@@ -96,6 +96,16 @@ func c15Case(c *ctx, ts []jsonapi.Type, how string) {
 					bare := jsonapi.Type{Name: t.Name, Attrs: t.Attrs}
 					if variant == 1 {
 						bare.Rels = map[string]jsonapi.Rel{}
+					} else {
+						// one-way relationships come with the type, pairs are added later
+						for k, r := range t.Rels {
+							if r.ToName == "" && k == r.FromName {
+								if bare.Rels == nil {
+									bare.Rels = map[string]jsonapi.Rel{}
+								}
+								bare.Rels[k] = r
+							}
+						}
 					}
 					_ = h.AddType(bare)
 					_ = h.Check()
@@ -212,6 +222,37 @@ func runC15(c *ctx) {
 				}
 			}
 		}
+	}
+	// a history: types added one by one with Check consulted in between (the Types slice grows and
+	// moves), then a pair added to types that had no relationships yet; judged like the same schema
+	// written down (oracle only)
+	for _, extra := range []int{0, 1, 2, 5} {
+		var key, detail string
+		p, pv := guard(func() {
+			h := &jsonapi.Schema{}
+			_ = h.AddType(jsonapi.Type{Name: "posts", Rels: map[string]jsonapi.Rel{"editor": {FromType: "posts", FromName: "editor", ToOne: true, ToType: "users"}}})
+			_ = h.AddType(jsonapi.Type{Name: "users"})
+			_ = h.Check()
+			for i := 0; i < extra; i++ {
+				_ = h.AddType(jsonapi.Type{Name: fmt.Sprint("extra", i)})
+				_ = h.Check()
+			}
+			pair := jsonapi.Rel{FromType: "posts", FromName: "author", ToOne: true, ToType: "users", ToName: "posts"}
+			if err := h.AddTwoWayRel(pair); err != nil {
+				key, detail = "check-depends-on-history", "AddTwoWayRel refused: "+err.Error()
+				return
+			}
+			got := h.Check()
+			fresh := (&jsonapi.Schema{Types: copyTypes(h.Types)}).Check()
+			if len(got) != len(fresh) {
+				key, detail = "check-depends-on-history", fmt.Sprintf("after AddType x%d with Check in between and AddTwoWayRel: %d errors (%v), the same schema written down: %d", 2+extra, len(got), got, len(fresh))
+			}
+		})
+		if p {
+			key, detail = "check-panics", fmt.Sprint(pv)
+		}
+		k := c.add("check-history", fmt.Sprintf("posts{editor}, users, %d more types, Check between, then posts.author <-> users.posts", extra), "check-history", false, oL(nil), oL(nil), key, detail)
+		k.Replay = "check-history"
 	}
 	// the three-type names-only cycle (observation O15): accepted by Check and by the property text
 	c15Case(c, []jsonapi.Type{
